@@ -13,6 +13,7 @@ Decided:
   scrypt  ScryptParams has private fields, its only aggregate is in new() and is dominated by all the
           RFC 7914 parameter checks; salsa20_8 runs 8 rounds with rotations {7,9,13,18}; scrypt()
           runs PBKDF2-HMAC-SHA256 with c = 1 before and after over buffers of p*128r, N*128r, 128r
+  hmac    the PRF of all three KDFs: HMAC key preparation (expand / derive / create) and inner / outer order (shared with C08)
 Not decided: ROMix / BlockMix data flow and values."""
 import re
 
